@@ -77,6 +77,10 @@ struct ItemSpec {
     /// do not verify (external_body): signature only; body replaced by unimplemented!()
     #[serde(default)]
     external_body: bool,
+    /// R15: rewrite every `e?` in the item to `match e { Ok(v) => v, Err(e) => return Err(From::from(e)) }`
+    /// (the documented desugaring of `?` on `Result`; Verus loses the `From` specification through `?`)
+    #[serde(default)]
+    desugar_try_result: bool,
     /// extract this item only when the feature is active
     #[serde(default)]
     only_feature: Option<String>,
@@ -234,6 +238,7 @@ struct Rewriter<'a> {
     pathmap: &'a BTreeMap<String, String>,
     drop_macros: &'a BTreeSet<String>,
     async_projection: String,
+    desugar_try: bool,
     erase_args_of: BTreeSet<String>,
     rules: BTreeSet<String>,
     keep_derives: BTreeSet<String>,
@@ -487,6 +492,13 @@ impl<'a> VisitMut for Rewriter<'a> {
                     continue;
                 }
             }
+            // a kept statement loses its (already evaluated) cfg and lint attributes (R1/R3)
+            let mut st = st;
+            match &mut st {
+                syn::Stmt::Expr(e, _) => { if let Some(a) = expr_attrs_mut(e) { if !a.is_empty() { a.clear(); self.rules.insert("R3".into()); } } }
+                syn::Stmt::Macro(m) => { m.attrs.clear(); }
+                _ => {}
+            }
             // R13: (debug_)assert_eq!/assert_ne!(a, b, ..) -> (debug_)assert!(a == b) / (a != b): same panic condition
             let mut st = st;
             if let syn::Stmt::Macro(m) = &mut st {
@@ -582,9 +594,31 @@ impl<'a> VisitMut for Rewriter<'a> {
                 }
             }
         }
-        // drop non-cfg attributes on expressions (e.g. #[allow])
         visit_mut::visit_expr_mut(self, e);
+        // R15 (after visiting children, so nested `?` are handled innermost first)
+        if self.desugar_try {
+            if let syn::Expr::Try(t) = e {
+                let inner = (*t.expr).clone();
+                *e = syn::parse_quote!(match #inner { Ok(vx_ok) => vx_ok, Err(vx_err) => return Err(From::from(vx_err)) });
+                self.rules.insert("R15".into());
+            }
+        }
     }
+}
+
+fn expr_attrs_mut(e: &mut syn::Expr) -> Option<&mut Vec<syn::Attribute>> {
+    use syn::Expr::*;
+    Some(match e {
+        Array(x) => &mut x.attrs, Assign(x) => &mut x.attrs, Async(x) => &mut x.attrs, Await(x) => &mut x.attrs,
+        Binary(x) => &mut x.attrs, Block(x) => &mut x.attrs, Break(x) => &mut x.attrs, Call(x) => &mut x.attrs,
+        Cast(x) => &mut x.attrs, Closure(x) => &mut x.attrs, Continue(x) => &mut x.attrs, Field(x) => &mut x.attrs,
+        ForLoop(x) => &mut x.attrs, If(x) => &mut x.attrs, Index(x) => &mut x.attrs, Let(x) => &mut x.attrs,
+        Lit(x) => &mut x.attrs, Loop(x) => &mut x.attrs, Macro(x) => &mut x.attrs, Match(x) => &mut x.attrs,
+        MethodCall(x) => &mut x.attrs, Paren(x) => &mut x.attrs, Path(x) => &mut x.attrs, Range(x) => &mut x.attrs,
+        Reference(x) => &mut x.attrs, Repeat(x) => &mut x.attrs, Return(x) => &mut x.attrs, Struct(x) => &mut x.attrs,
+        Try(x) => &mut x.attrs, Tuple(x) => &mut x.attrs, Unary(x) => &mut x.attrs, While(x) => &mut x.attrs,
+        _ => return None,
+    })
 }
 
 fn expr_attrs(e: &syn::Expr) -> &[syn::Attribute] {
@@ -975,7 +1009,13 @@ fn main() {
     }
     {
         let feats: BTreeSet<String> = unit_toml.features.iter().cloned().collect();
-        contracts.fns.retain(|_, c| c.only_feature.as_ref().map(|f| feats.contains(f)).unwrap_or(true));
+        let active = |f: &String| -> bool { if let Some(n) = f.strip_prefix('!') { !feats.contains(n) } else { feats.contains(f) } };
+        contracts.fns.retain(|_, c| c.only_feature.as_ref().map(|f| active(f)).unwrap_or(true));
+        let renamed: BTreeMap<String, FnContract> = std::mem::take(&mut contracts.fns).into_iter().map(|(k, v)| {
+            let k2 = match k.rsplit_once(" @") { Some((a, _)) => a.trim().to_string(), None => k };
+            (k2, v)
+        }).collect();
+        contracts.fns = renamed;
         unit_toml.item.retain(|it| it.only_feature.as_ref().map(|f| feats.contains(f)).unwrap_or(true));
     }
 
@@ -1029,6 +1069,7 @@ fn main() {
             pathmap: &unit_toml.pathmap,
             drop_macros: &drop_macros,
             async_projection: spec.async_projection.clone(),
+            desugar_try: spec.desugar_try_result,
             erase_args_of: spec.erase_args_of.iter().cloned().collect(),
             rules: BTreeSet::new(),
             keep_derives: spec.keep_derives.iter().cloned().collect(),
